@@ -525,7 +525,11 @@ def rules(tier):
             # mutation sweep: len(pt) != 1 in the honeyword emitter
             ('C16.R17', _shared_rule('c16', 'r17_honeyword_recursion_shape')),
             # C16-eb: K* / X* terminals lower-cased after loading under --all_lower
-            ('C16.R18', _shared_rule('plumbing', 'terminals_stored_as_read'))]
+            ('C16.R18', _shared_rule('plumbing', 'terminals_stored_as_read')),
+            # C16-fa: --all_lower stored under a key main() never reads
+            ('C16.R19', _shared_rule('plumbing', 'option_round_trip')),
+            # C16-fb: grammar['M'] = grammar['E'] = grammar['W'] = []
+            ('C16.R20', _shared_rule('c01', 'r11_sections_not_aliased'))]
 
 
 META = {
